@@ -213,6 +213,8 @@ def random_abstract(rnd):
                 out.append({"op": "insert", "n": rnd.choice([3, 30])})
                 out.append({"op": "learn", "n": 0})
             for _ in range(rnd.choice([1, 5, 25, 40])):
+                if rnd.random() < 0.3:
+                    out.append({"op": "tick", "n": rnd.choice([1, 9, 15, 30, 3600])})     # a bulk write issued long after the last flush
                 out.append({"op": "upsert", "n": rnd.choice([1, 2, 3])})
             if r < 0.3:
                 out.append({"op": "insert", "n": rnd.choice([1, 30, 49])})
